@@ -121,6 +121,7 @@ class World(object):
                 ('Time Channel', ['Time', 'Time'])]),
             index=pd.Index(['A', 'B'], name='ID'))
         self._beads_cache = {}
+        os.makedirs(os.path.join(self.dir, 'a_folder'), exist_ok=True)
 
     # ------------------------------------------------------------------ beads
     def beads_table(self, fault='none', inst='A', rows=('BOK', 'BNOMEF', 'BFAIL', 'BOTHER', 'BAMP', 'BVOLT', 'BNOCURVE')):
@@ -197,7 +198,8 @@ class World(object):
     def sample_row(self, r, inst='A', variant=0, frac_in=0.3, style=0):
         fl = INSTR[inst]['fl'] + INSTR[inst]['extra']
         f = {'ok-int': self.files[(inst, 'int' if variant % 3 != 1 else 'int-perm')], 'ok-float': self.files[(inst, 'float' if variant % 2 == 0 else 'float2')],
-             'missing': 'no_such_file.fcs',
+             # no such file / a path THROUGH a regular file / a folder: in each case the file is not there
+             'missing': ['no_such_file.fcs', self.files[(inst, 'int')] + '/events.fcs', 'a_folder'][variant % 3],
              'short': self.files[(inst, 'short')]}[r['file']]
         # outside [0, 1] by a lot, or by so little that fraction x events still rounds to a legal count
         frac = {'in': frac_in, 'above': 1.2 if variant % 2 == 0 else 1.0004, 'below': -0.1 if variant % 2 == 0 else -0.0004}[r['frac']]
@@ -218,12 +220,21 @@ class World(object):
         t.index.name = 'ID'
         return t
 
-    def process(self, table, beads_fault='none', inst='A'):
+    def process(self, table, beads_fault='none', inst='A', plot_dir=None):
+        """plot_dir: a folder name (under the world's directory) - the diagnostic figures are drawn as well"""
         bt, bs, fx, mo = self.beads(beads_fault, inst)
         with warnings.catch_warnings():
             warnings.simplefilter('ignore')
-            return FlowCal.excel_ui.process_samples_table(table, self.instruments, mef_transform_fxns=fx, beads_table=bt,
-                                                          base_dir=self.dir, verbose=False, plot=False)
+            try:
+                return FlowCal.excel_ui.process_samples_table(table, self.instruments, mef_transform_fxns=fx, beads_table=bt,
+                                                              base_dir=self.dir, verbose=False, plot=plot_dir is not None,
+                                                              plot_dir=plot_dir)
+            finally:
+                if plot_dir is not None:
+                    import matplotlib.pyplot as plt
+                    import shutil
+                    plt.close('all')
+                    shutil.rmtree(os.path.join(self.dir, plot_dir), ignore_errors=True)
 
     # ------------------------------------------------------------------ hand composition (C10)
     def by_hand(self, row_cfg, table_row, calls, inst='A', beads_fault='none'):
